@@ -59,6 +59,7 @@ ABTI_waitlist_wait_and_unlock(ABTI_local **pp_local, ABTI_waitlist *p_waitlist,
                 break;
             }
             ABTD_futex_wait_and_unlock(&p_waitlist->futex, p_lock);
+            ABTI_VERIF_POINT(ABTI_VERIF_P_WAITLIST_EXT_AFTER_WAKE);
 
             /* Quick check. */
             if (ABTD_atomic_acquire_load_int(&thread.state) ==
@@ -80,6 +81,7 @@ ABTI_waitlist_wait_and_unlock(ABTI_local **pp_local, ABTI_waitlist *p_waitlist,
         p_waitlist->p_tail = &p_ythread->thread;
 
         /* Suspend the current ULT */
+        ABTI_VERIF_COV(ABTI_VERIF_C_WAITLIST_ULT_WAIT);
         ABTI_ythread_suspend_unlock(&p_local_xstream, p_ythread, p_lock,
                                     sync_event_type, p_sync);
         /* Resumed. */
@@ -125,6 +127,7 @@ static inline ABT_bool ABTI_waitlist_wait_timedout_and_unlock(
                ABT_THREAD_STATE_READY) {
             double cur_time = ABTI_get_wtime();
             if (cur_time >= target_time) {
+                ABTI_VERIF_POINT(ABTI_VERIF_P_TIMEDOUT_BEFORE_RELOCK);
                 ABTD_spinlock_acquire(p_lock);
                 goto timeout;
             }
@@ -178,10 +181,13 @@ timeout:
         (ABTD_atomic_relaxed_load_int(&thread.state) != ABT_THREAD_STATE_READY)
             ? ABT_TRUE
             : ABT_FALSE;
+    if (!is_timedout)
+        ABTI_VERIF_COV(ABTI_VERIF_C_TIMEDOUT_ALREADY_READY);
     if (is_timedout) {
         /* This thread is still in the list. */
         if (p_waitlist->p_head == &thread) {
             /* thread is a head. */
+            ABTI_VERIF_COV(ABTI_VERIF_C_TIMEDOUT_REMOVE_HEAD);
             /* Note that thread->p_prev cannot be used to check whether
              * thread is a head or not because signal and broadcast do
              * not modify thread->p_prev. */
@@ -200,10 +206,12 @@ timeout:
                  * checks p_prev.  Note that a real external thread is
                  * also dummy, so updating p_prev is allowed. */
                 thread.p_next->p_prev = thread.p_prev;
+                ABTI_VERIF_COV(ABTI_VERIF_C_TIMEDOUT_REMOVE_MIDDLE);
             } else {
                 /* This thread is p_tail */
                 ABTI_ASSERT(p_waitlist->p_tail == &thread);
                 p_waitlist->p_tail = thread.p_prev;
+                ABTI_VERIF_COV(ABTI_VERIF_C_TIMEDOUT_REMOVE_TAIL);
             }
         }
         /* We do not need to modify thread->p_prev and p_next since this
@@ -223,11 +231,13 @@ static inline void ABTI_waitlist_signal(ABTI_local *p_local,
 
         ABTI_ythread *p_ythread = ABTI_thread_get_ythread_or_null(p_thread);
         if (p_ythread) {
+            ABTI_VERIF_COV(ABTI_VERIF_C_SIGNAL_ULT);
             ABTI_ythread_resume_and_push(p_local, p_ythread);
         } else {
             /* When p_thread is an external thread or a tasklet */
             ABTD_atomic_release_store_int(&p_thread->state,
                                           ABT_THREAD_STATE_READY);
+            ABTI_VERIF_POINT(ABTI_VERIF_P_SIGNAL_EXT_AFTER_READY);
 #ifndef ABT_CONFIG_ACTIVE_WAIT_POLICY
             /* There's no way to selectively wake up threads.  Let's just
              * wake up all the threads.  They will sleep again since their
@@ -255,9 +265,11 @@ static inline void ABTI_waitlist_broadcast(ABTI_local *p_local,
 
             ABTI_ythread *p_ythread = ABTI_thread_get_ythread_or_null(p_thread);
             if (p_ythread) {
+                ABTI_VERIF_COV(ABTI_VERIF_C_BROADCAST_ULT);
                 ABTI_ythread_resume_and_push(p_local, p_ythread);
             } else {
                 /* When p_thread is an external thread or a tasklet */
+                ABTI_VERIF_COV(ABTI_VERIF_C_BROADCAST_EXT);
                 wakeup_nonyieldable = ABT_TRUE;
                 ABTD_atomic_release_store_int(&p_thread->state,
                                               ABT_THREAD_STATE_READY);
@@ -270,6 +282,7 @@ static inline void ABTI_waitlist_broadcast(ABTI_local *p_local,
         p_waitlist->p_tail = NULL;
 #ifndef ABT_CONFIG_ACTIVE_WAIT_POLICY
         if (wakeup_nonyieldable) {
+            ABTI_VERIF_POINT(ABTI_VERIF_P_BROADCAST_BEFORE_FUTEX);
             ABTD_futex_broadcast(&p_waitlist->futex);
         }
 #else
